@@ -14,9 +14,10 @@ import CifModel.Spec.Traversal
       parse_loop_packets returns, at every packet boundary, with the depth of the boundary it was entered at (0 or 1
       when entered at 0), whatever the handlers answer; the counter is never negative.
     * C15_result_nonneg — cif_parse never returns a navigation code.
-    * C15_positive_aborts_local / C15_end_local — at every handler call site but one, an answer that is neither
+    * C15_positive_aborts_local / C15_loop_start_local — at every handler call site, an answer that is neither
       CONTINUE nor a SKIP directive (END, or a positive code) becomes the result of the production at once.
-    * C15_cex_loop_start — the exception: a positive answer of handle_loop_start is dropped (open finding F33).
+    * C15_cex_loop_start_pinned — before fix 43d0bb7 a positive answer of handle_loop_start was dropped (finding F33,
+      fixed): kept as a statement about the pinned step `loopStartStepPinned`.
   NOT PROVED (stated as `_full` propositions; checked by the `pcb` correspondence family and its independent oracle
   only): the loop / container / CIF levels of the balance theorem, and the global theorems all_continue_mirror,
   syntax_only_same_log, skip_semantics, end_ok, positive_aborts over rendered documents.
@@ -50,7 +51,7 @@ def C15_syntax_only_same_log_full (erase : Ev → Ev) (evEq : List Ev → List E
     evEq ((parseCB p true (tokensOf d)).1.map erase) ((parseCB p false (tokensOf d)).1.map erase) = true
     ∧ (parseCB p true (tokensOf d)).2.1 = (parseCB p false (tokensOf d)).2.1
 
-/-- a positive answer of any handler is the last handler callback and the result (FALSE for loop_start: F33) -/
+/-- a positive answer of any handler is the last handler callback and the result -/
 def C15_positive_aborts_full : Prop :=
   ∀ (d : Doc) (p : Prog) (storing : Bool) (k : Nat)
     (h : k < ((parseCB p storing (tokensOf d)).1.filter Ev.isHandler).length),
@@ -114,41 +115,41 @@ theorem C15_positive_aborts_local (p : Prog) (s : St) (hs : s.skip = 0) (r : Int
   · intro cont code c h; simp [containerEnd, dec, hs, call, h, h1, h2, h3]
   · intro cont code c h; simp [containerEnd, dec, hs, call, h, h1, h2, h3]
 
-/-- END from handle_loop_start skips the loop body; any other non-directive answer does NOT (the body is parsed and its
-    result replaces the handler's) — the root of F33 -/
-theorem C15_loop_start_local (p : Prog) (cont : Bool) (names : List Str) (s : St) (hs : s.skip = 0) :
-    (p s.n (.loopStart names) = END → (loopStartStep p cont names s).2.2.2 = false ∧ (loopStartStep p cont names s).1 = END)
-    ∧ (∀ r, r > 0 → p s.n (.loopStart names) = r → (loopStartStep p cont names s).2.2.2 = true) := by
-  constructor
-  · intro h
-    simp [loopStartStep, hs, call, h, END, CONTINUE, SKIP_CURRENT, SKIP_SIBLINGS]
-  · intro r hr h
-    have h1 : r ≠ CONTINUE := by unfold CONTINUE; omega
-    have h2 : r ≠ SKIP_CURRENT := by unfold SKIP_CURRENT; omega
-    have h3 : r ≠ SKIP_SIBLINGS := by unfold SKIP_SIBLINGS; omega
-    have h4 : r ≠ END := by unfold END; omega
-    simp [loopStartStep, hs, call, h, h1, h2, h3, h4]
+/-- handle_loop_start: an answer that is neither CONTINUE nor a SKIP directive (END or a positive code) skips the loop
+    body and is the result of the step (`goto loop_body_end`) -/
+theorem C15_loop_start_local (p : Prog) (cont : Bool) (names : List Str) (s : St) (hs : s.skip = 0) (r : Int)
+    (hr : r ≠ CONTINUE ∧ r ≠ SKIP_CURRENT ∧ r ≠ SKIP_SIBLINGS) (h : p s.n (.loopStart names) = r) :
+    (loopStartStep p cont names s).2.2.2 = false ∧ (loopStartStep p cont names s).1 = r := by
+  obtain ⟨h1, h2, h3⟩ := hr
+  simp [loopStartStep, hs, call, h, h1, h2, h3]
 
--- ---- the counterexample behind C15_positive_aborts_full (open finding F33) ------------------------------------------
+-- ---- the repaired defect F33, as a statement about the pinned variant ------------------------------------------------
+
+/-- before fix 43d0bb7 a positive answer of handle_loop_start did not skip the loop body: the packets were parsed (with
+    their callbacks) and their result replaced the handler's code -/
+theorem C15_cex_loop_start_pinned (p : Prog) (cont : Bool) (names : List Str) (s : St) (hs : s.skip = 0) (r : Int)
+    (hr : r > 0) (h : p s.n (.loopStart names) = r) :
+    (loopStartStepPinned p cont names s).2.2.2 = true ∧ (loopStartStep p cont names s).2.2.2 = false := by
+  have h1 : r ≠ CONTINUE := by unfold CONTINUE; omega
+  have h2 : r ≠ SKIP_CURRENT := by unfold SKIP_CURRENT; omega
+  have h3 : r ≠ SKIP_SIBLINGS := by unfold SKIP_SIBLINGS; omega
+  have h4 : r ≠ END := by unfold END; omega
+  constructor
+  · simp [loopStartStepPinned, hs, call, h, h1, h2, h3, h4]
+  · simp [loopStartStep, hs, call, h, h1, h2, h3]
 
 /-- `data_a loop_ _x 1` -/
 def C15_cexDoc : Doc := [{ code := (a!"a"), body := [.loop [(a!"_x")] [[.chr false (a!"1")]]] }]
 /-- answers 7 at handler invocation 2 = loop_start -/
 def C15_cexProg : Prog := fun k _ => if k = 2 then 7 else 0
 
-/-- the positive code 7 answered by loop_start is lost: the parse delivers all 9 handler callbacks and returns CIF_OK,
-    and the loop is not stored -/
-theorem C15_cex_loop_start :
-    (parseCB C15_cexProg true (tokensOf C15_cexDoc)).2.1 = 0
-    ∧ ((parseCB C15_cexProg true (tokensOf C15_cexDoc)).1.filter Ev.isHandler).length = 9
+/-- the repaired parser: the positive code 7 answered by loop_start ends the parse after 3 handler callbacks, is
+    returned, and the loop is not stored -/
+theorem C15_loop_start_code_returned :
+    (parseCB C15_cexProg true (tokensOf C15_cexDoc)).2.1 = 7
+    ∧ ((parseCB C15_cexProg true (tokensOf C15_cexDoc)).1.filter Ev.isHandler).length = 3
     ∧ ((parseCB C15_cexProg true (tokensOf C15_cexDoc)).2.2.map (fun c => c.loops.length)) = [0] := by
   decide +kernel
-
-theorem C15_positive_aborts_full_is_false : ¬ C15_positive_aborts_full := by
-  intro h
-  have h2 := C15_cex_loop_start
-  have h1 := h C15_cexDoc C15_cexProg true 2 (by rw [h2.2.1]; decide) (by simp [C15_cexProg])
-  omega
 
 -- ---- non-vacuity / sanity ---------------------------------------------------------------------------------------------
 
